@@ -129,6 +129,7 @@ def run(ctx: Ctx) -> int:
             ("alias_accum", "SteadyLoop_alias_accum.cfg", "AccumFails"),
             ("looserel", "SteadyLoop_looserel.cfg", "AccumFails"),
             ("slowaccum", "SteadyLoop_slowaccum.cfg", "AccumFails"),
+            ("forced", "SteadyLoop_forced.cfg", "AccumFails"),
             ("earlier", "SteadyLoop_earlier.cfg", "Plumbing"),
             ("nan_zero", "SteadyLoop_nan_zero.cfg", "SuccessIsSteady"),
             ("nan_grow", "SteadyLoop_nan_grow.cfg", "AccumFails"),
@@ -140,7 +141,7 @@ def run(ctx: Ctx) -> int:
         return ctx.tlc("SteadyLoop.tla", j[1], tag=j[0], expect_violation=j[2] is not None,
                        workers=2 if j[2] is not None else 8, jvm=["-Xmx2g" if j[2] is not None else "-Xmx6g"])
 
-    with ThreadPoolExecutor(max_workers=10) as ex:
+    with ThreadPoolExecutor(max_workers=8) as ex:
         outs = list(ex.map(_job, jobs))
     for (tag, cfg, inv), r in zip(jobs, outs):
         if inv is not None:
@@ -157,6 +158,8 @@ def run(ctx: Ctx) -> int:
         "undefined norm counts as converged, growth overflowing within the budget": "AccumFails violated",
         "fluxes of a later steady-state point evaluated under an earlier segment's parameters": "FluxesBalance violated",
         "scan worker that drops rel_norm (always the absolute norm), tiny pools, relative norm asked": "SuccessIsSteady violated",
+        "copy loop, periodic forcing whose period divides the sampling interval": "AccumFails violated (limit of the "
+                                                                                  "criterion; known finding on the code)",
         "reporter that hands back earlier results after a failed search": "Plumbing violated (history: simulate, then "
                                                                           "a failed steady-state search)"}
     grid = outs[-1]
@@ -194,7 +197,8 @@ def run(ctx: Ctx) -> int:
         raise MachineryError(f"oracle decided {len(rpreds)} of {len(cases)} cases")
 
     # ---- real runs ---------------------------------------------------------------------------------------------
-    everything = [dict(p, origin="grid") for p in preds] + [dict(p, origin="random") for p in rpreds]
+    everything = [dict(p, origin="grid") for p in preds] + [dict(p, origin="random") for p in rpreds] \
+        + sk.forced_cases()
     live = [p for p in everything if not p["fragile"] and p["case"]["entry"] == "simulator"]
     rep.notes["fragile_excluded"] = len(everything) - len(live)
     results = pmap(_check, live, procs=8, chunk=16)
